@@ -26,7 +26,7 @@ LEVEL_TEXT = ("Seeded restart-fault exploration: the JSON save/load path is exer
 LEVEL_NOTE = "Trusted: in-memory file shim (cross-checked against a real directory in a sampled fraction), dump comparison; sampling evidence only."
 PROBES = ["stage_built", "stage_initialized", "stage_paused", "stage_finished", "stage_backward", "stage_edited",
           "with_subproject_task", "with_task_rules", "with_mainwp", "with_conveyor", "zero_lst_value", "resimulated_twin", "real_directory_used",
-          "unconfigured_subproject_task", "non_auto_subproject_task", "encoding_option_used"]
+          "unconfigured_subproject_task", "non_auto_subproject_task", "encoding_option_used", "file_read_twice"]
 
 
 def budget(tier):
@@ -50,7 +50,8 @@ def gen(rng, tier):
     spec["reverse"] = rng.random() < 0.5
     spec["due"] = rng.random() < 0.4
     spec["edit"] = sorted(set(rng.randint(0, 6) for _ in range(rng.randint(1, 3))))
-    spec["real_dir"] = rng.random() < 0.02
+    spec["real_dir"] = rng.random() < 0.05
+    spec["read_twice"] = rng.random() < 0.15
     if rng.random() < 0.05:
         spec["model"]["init_tz"] = rng.choice([0, 9, -5])  # init_datetime carries a time zone (hours east of UTC)
     if rng.random() < 0.1:
@@ -324,6 +325,10 @@ def run(spec):
         M = env.M
         new = M.bp.BaseProject()
         orr = D.call(lambda: new.read_simple_json(path, **ekw))
+        if not orr.ok and orr.exc_type in ("FileNotFoundError", "OSError", "NotADirectoryError", "PermissionError") and tmpdir is None:
+            # the in-memory file system only answers open(): a library that also asks the real file system about the path
+            # (os.stat, os.path.exists ...) must be judged on real files, not on the seam's blind spot
+            return run(dict(spec, real_dir=True))
         if not orr.ok:
             res.add("read", "C16.read_raises.%s@%s" % (orr.exc_type, orr.where),
                     "read_simple_json of a file written at stage %s raised %s(%s)" % (stage, orr.exc_type, orr.msg), None)
@@ -342,6 +347,27 @@ def run(spec):
             if attr is not None:
                 res.add("roundtrip", "C16.roundtrip_differs.%s" % attr,
                         "stage %s: file written by the restored project differs from the original file at %s: %r vs %r" % (stage, d[0], d[1], d[2]), None)
+        if spec.get("read_twice") and out is not None and ow2.ok:
+            # a project restored from the file goes on (its logs grow in place); the file has not changed, so reading it a second
+            # time gives the file again
+            res.count("file_read_twice")
+            pa = M.bp.BaseProject()
+            if D.call(lambda: pa.read_simple_json(path, **ekw)).ok:
+                seams.attach(pa)
+                seams.rerank(pa, ranks or {})
+                scen.simulate(pa, dict(cfg, init_state=False, init_log=False), want_snap=False)
+                pb = M.bp.BaseProject()
+                ob = D.call(lambda: pb.read_simple_json(path, **ekw))
+                path3 = "mem:c16c.json" if tmpdir is None else tmpdir + "/p3.json"
+                if ob.ok and D.call(lambda: pb.write_simple_json(path3, **ekw)).ok:
+                    text3 = seams.MEMFS[path3] if path3.startswith("mem:") else open(path3, encoding=(enc or "utf-8")).read()
+                    attr, d = json_diff_key(json.loads(text1), json.loads(text3))
+                    if attr is not None:
+                        res.add("roundtrip", "C16.second_read_of_unchanged_file_differs.%s" % attr,
+                                "stage %s: the file was read, the restored project continued, and the unchanged file read again: the second "
+                                "project's export differs from the file at %s: %r vs %r" % (stage, d[0], d[1], d[2]), None)
+                elif not ob.ok:
+                    res.add("read", "C16.second_read_raises.%s@%s" % (ob.exc_type, ob.where), "second read_simple_json of the unchanged file raised %s" % ob.msg, None)
     finally:
         if tmpdir is not None:
             import shutil
